@@ -168,8 +168,8 @@ class Check(PropertyCheck):
             "rollback re-runs configure; append and overwrite mode), every file read after each event: "
             "finished flows may never disappear (only a user-requested overwrite-mode (re)open may start a file afresh); real: explicit save.file to a real file, truncated copies read with read_flows_from_paths. "
             "distinct = distinct (file, window) / hook script; non-trivial = at least one cut strictly inside a record.")
-    budget = {"quick": 400, "thorough": 12000}
-    time_budget = {"quick": 22, "thorough": 300}
+    budget = {"quick": 400, "thorough": 6000}
+    time_budget = {"quick": 22, "thorough": 200}
     fingerprints = ["mitmproxy.io.io:FlowWriter.add", "mitmproxy.io.io:FilteredFlowWriter.add", "mitmproxy.io.io:FlowReader.stream",
                     "mitmproxy.io.io:read_flows_from_paths", "mitmproxy.io.tnetstring:load", "mitmproxy.io.tnetstring:dump",
                     "mitmproxy.addons.save:Save.save_flow", "mitmproxy.addons.save:Save.configure", "mitmproxy.addons.save:Save.request",
